@@ -5,6 +5,10 @@
      op 3  Normal Rand  : mu sigma cnt { z Rand }*         z = NormFloat64() of a clone of the scripted source
      op 4  TDist grid   : V BoundsLo BoundsHi cnt { x PDF(x) CDF(x) GL }*
      op 5  DeltaDist    : T BoundsLo BoundsHi cnt { x PDF(x) CDF(x) }* cnt { y InvCDF(y) }*
+     op 6  CDF scan     : fn p1 p2 lo hi n cnt { xlo xhi CDF(xlo) CDF(xhi) }*     fn 1 normal (mu sigma), 2 t (V 0)
+   The pairs of op 6 are found by the harness's discontinuity hunt (harness/hb_scan.go) over n cells of
+   [lo,hi]; the first pair is the consecutive grid pair with the smallest increment.  Only the
+   reported pairs are judged: xlo < xhi must give CDF(xlo) <= CDF(xhi) + 1e-12, values in [0,1].
    GL = the harness's composite Gauss-Legendre quadrature of the implementation's PDF over
    [previous x, x] (NaN where not computed).  Grids are sorted and symmetric about the centre.
    Exact (M1): DeltaDist, Mean/Variance/Bounds, InvCDF special values, Rand, CDF at 0 and at
@@ -164,13 +168,27 @@ Fixpoint check_delta_inv (T : xreal) (pts : list (xreal * xreal)) (i : Z) : opti
 Definition near (e : Q) (scale : Q) (o : xreal) : bool :=
   match o with XFin v => within (4 * eps52 * scale) e v | _ => false end.
 
+(* ---------- op 6: monotonicity on the pairs located by the scan ---------- *)
+(* codes: 2 value outside [0,1] / not finite, 3 CDF(xlo) > CDF(xhi) + 1e-12 for xlo < xhi *)
+Fixpoint check_scan (pts : list (xreal * xreal * xreal * xreal)) (i : Z) : option (Z * Z) :=
+  match pts with
+  | [] => None
+  | (XFin a, XFin b, XFin fa, XFin fb) :: t =>
+      if negb (in01 fa && in01 fb) then Some (i, 2%Z)
+      else if Qltb a b && negb (Qleb (fa - tol_law) fb) then Some (i, 3%Z)
+      else if Qltb b a && negb (Qleb (fb - tol_law) fa) then Some (i, 3%Z)
+      else check_scan t (i + 1)%Z
+  | _ :: _ => Some (i, 2%Z)
+  end.
+
 Local Open Scope Z_scope.
 Inductive c05case :=
 | KNormal (mu sigma : Q) (mean var blo bhi : xreal) (pts : list gpoint)
 | KInv (mu sigma : Q) (pts : list (xreal * xreal * xreal * xreal))
 | KRand (mu sigma : Q) (pts : list (xreal * xreal))
 | KT (v : Q) (blo bhi : xreal) (pts : list gpoint)
-| KDelta (T : Q) (blo bhi : xreal) (pts : list (xreal * xreal * xreal)) (inv : list (xreal * xreal)).
+| KDelta (T : Q) (blo bhi : xreal) (pts : list (xreal * xreal * xreal)) (inv : list (xreal * xreal))
+| KScan (fn : Z) (p1 p2 lo hi : Q) (n : Z) (pts : list (xreal * xreal * xreal * xreal)).
 
 Definition p_line : parser c05case :=
   do id <- pZ; if negb (id =? 5) then (fun _ => None) else
@@ -181,6 +199,9 @@ Definition p_line : parser c05case :=
   else if op =? 4 then (do v <- pQ; do lo <- pX; do hi <- pX; do pts <- plist p_gpoint; pend (KT v lo hi pts))
   else if op =? 5 then (do T <- pQ; do lo <- pX; do hi <- pX; do pts <- plist (do x <- pX; do p <- pX; do c <- pX; pret (x, p, c));
                         do inv <- plist (do y <- pX; do v <- pX; pret (y, v)); pend (KDelta T lo hi pts inv))
+  else if op =? 6 then (do fn <- pZ; do p1 <- pQ; do p2 <- pQ; do lo <- pQ; do hi <- pQ; do n <- pZ;
+                        do pts <- plist (do a <- pX; do b <- pX; do fa <- pX; do fb <- pX; pret (a, b, fa, fb));
+                        pend (KScan fn p1 p2 lo hi n pts))
   else (fun _ => None).
 
 Local Open Scope Q_scope.
@@ -192,7 +213,8 @@ Local Open Scope Q_scope.
    op 3 (192): Rand
    op 4 (256): +1 V < 1 / +2 integer V / +3 half-integer V / +4 other V >= 1, +8 V > 200,
                +16 a point with |x| >= 100 or an infinite abscissa, +32 NaN abscissa
-   op 5 (320): DeltaDist *)
+   op 5 (320): DeltaDist
+   op 6 (384): +1 normal CDF scan / +2 t CDF scan, +4 a candidate jump was located and judged *)
 Definition check_C05 (line : list Z) : list Z :=
   match p_line line with
   | None => verdict V_MALFORMED 0 (-1) []
@@ -247,4 +269,15 @@ Definition check_C05 (line : list Z) : list Z :=
                      | None => verdict V_OK 320 (-1) []
                      end
            end
+  | Some (KScan fn p1 p2 lo hi n pts, _) =>
+      if negb (((fn =? 1) || (fn =? 2))%Z && Qltb lo hi && (8 <=? n)%Z) then verdict V_MALFORMED 0 (-1) [] else
+      (* +4: the hunt located at least one candidate jump besides the smallest grid increment *)
+      let tag := (384 + fn + (if (2 <=? Z.of_nat (length pts))%Z then 4 else 0))%Z in
+      match pts with
+      | [] => verdict V_MISMATCH tag (-1) [2%Z]        (* the scan must report its smallest increment *)
+      | _ => match check_scan pts 0 with
+             | Some (i, c) => verdict V_MISMATCH tag i [c]
+             | None => verdict V_OK tag (-1) []
+             end
+      end
   end.
